@@ -43,6 +43,19 @@ def positional_family():
     mk("two_blocks_fail", [("inc", [A(Call("inc", I(1)), 7), A(Call("inc", I(1)), 8)]), ("dbl", [A(Call("dbl", I(1)), 9)]), ok_main])
     mk("missing_shadow_all_hold", [("inc", [A(Call("inc", I(1)), 2)]), ok_main])          # dbl has no shadow block
     mk("missing_shadow_and_fail", [("inc", [A(Call("inc", I(1)), 3)]), ok_main])
+    # several shadow blocks for one function: every block gates (the failing one first / last)
+    mk("dup_blocks_fail_first", [("inc", [A(Call("inc", I(1)), 9)]), ("inc", [A(Call("inc", I(1)), 2)]), ("dbl", [A(Call("dbl", I(1)), 2)]), ok_main])
+    mk("dup_blocks_fail_last", [("inc", [A(Call("inc", I(1)), 2)]), ("inc", [A(Call("inc", I(1)), 9)]), ("dbl", [A(Call("dbl", I(1)), 2)]), ok_main])
+    mk("dup_blocks_all_hold", [("inc", [A(Call("inc", I(1)), 2)]), ("inc", [A(Call("inc", I(2)), 3)]), ("dbl", [A(Call("dbl", I(1)), 2)]), ok_main])
+    # a block that is skipped because its function calls an external function directly, then a failing / passing block
+    from lib.families import LABS
+    roll = Func("roll", [], "int", [Ret(Bin("%", Call("labs", I(-7)), I(6)))])
+    def mkx(name, shadows, funcs):
+        pr = Program(list(funcs), shadows=shadows, externs=[LABS]); out["pos_" + name] = pr
+    mkx("extern_skipped_then_fail", [("roll", [Assert(Bin("<", Call("roll"), I(6)))]), ("inc", [A(Call("inc", I(1)), 5)]), ok_main], (roll, inc, main))
+    mkx("fail_then_extern_skipped", [("inc", [A(Call("inc", I(1)), 5)]), ("roll", [Assert(Bin("<", Call("roll"), I(6)))]), ok_main], (inc, roll, main))
+    mkx("extern_skipped_then_pass", [("roll", [Assert(Bin("<", Call("roll"), I(6)))]), ("inc", [A(Call("inc", I(1)), 2)]), ok_main], (roll, inc, main))
+    mkx("extern_skipped_wrong_assert", [("roll", [Assert(Bin("==", Call("roll"), I(99)))]), ("inc", [A(Call("inc", I(1)), 2)]), ok_main], (roll, inc, main))
     mk("fail_then_pass_same_block", [("inc", [A(Call("inc", I(1)), 3), A(Call("inc", I(1)), 2)]), ("dbl", [A(Call("dbl", I(1)), 2)]), ok_main])
     return out
 
@@ -76,12 +89,15 @@ def run(ctx):
         text = (r["out"] + r["err"]).decode(errors="replace")
         events, tests = parse_transcript(text)
         want = presc[pid]["shadows"]
+        want = [w for w in want if w["status"] != "skipped"]          # skipped blocks (direct extern call) do not gate
         if not any(e["e"] == "tc_ok" for e in events) or any(w["status"] != "ok" for w in want):
             stats["not-a-subject"] += 1
             continue
         seen.add(sha(r["src"]))
         stats["programs"] += 1
-        fails = {w["fn"]: w["fails"] for w in want}
+        fails = {}
+        for w in want:                      # a function may have several shadow blocks: each of them gates
+            fails[w["fn"]] = fails.get(w["fn"], 0) + w["fails"]
         any_false = any(v > 0 for v in fails.values())
         named = set(__import__("re").findall(r"Shadow test '(\w+)' FAILED", text))
         missing = [f["n"] for f in progs[pid]["funcs"] if f["n"] not in {s["fn"] for s in progs[pid]["shadows"]}]
